@@ -1080,6 +1080,11 @@ func init() {
 		},
 		shards: func(tier string) int { return 16 },
 		run: func(c *Ctx) {
+			{
+				up := world.NewUpstream("c08conc")
+				concExplore(c, "C08", c08ConcScenarios(up), 1, 2)
+				up.Close()
+			}
 			e := newC08Env(c)
 			defer e.close()
 			e.c08Main()
@@ -1096,6 +1101,12 @@ func init() {
 			}
 		},
 		replay: func(c *Ctx, raw json.RawMessage) string {
+			var cr0 concReplay
+			if json.Unmarshal(raw, &cr0) == nil && cr0.Kind == concKind {
+				up := world.NewUpstream("c08conc")
+				defer up.Close()
+				return concReplayOne(c, "C08", c08ConcScenarios(up), cr0)
+			}
 			var cs c08Case
 			if err := json.Unmarshal(raw, &cs); err != nil || cs.Source == "" {
 				return "not a C08 case"
